@@ -84,6 +84,12 @@ def run(ctx):
     for pnc in (json.load(open(os.path.join(dp, 'panics.json'))) or [])[:6]:
         if 'recovered' not in pnc:
             vlib.report(ctx, 'planted-input:escaped-or-hung', 'Lint*Ex did not return normally on %s: %s' % (pnc['id'], pnc.get('escaped') or 'hung'), dict(kind='plant', id=pnc['id'], der_b64=pnc.get('der')))
+    # a lint registered after the registry has been used (and listed, looked up, filtered) is run by the next Lint*Ex of its kind
+    from checks import regcommon
+    late, _ = regcommon.reasons(ctx, exe, {'registered-lint-without-result'})
+    for (e, why) in late:
+        vlib.report(ctx, 'late:%s' % e['kind'], 'the %s lint %s was registered after the registry had been used: the next run of its kind returned %d results for %d lints, %s one for it' % (
+            e['kind'], e['name'], e['results'], e['lints'], 'with' if e['hasResult'] else 'without'), dict(kind='registry', event=e))
     cov = dict(evaluations=ssum['RunDone'] + msum['replayed'] + mutsum['parsed'], distinct_nontrivial=ssum['StatusMixes'],
                rule='evaluation = one Lint*Ex call on (object, registry): corpus objects x (full registry + filtered registries), plus every '
                     'terminal state of MC_Run replayed with mock lints; non-trivial = distinct (kind, set of statuses present) with >= 2 statuses',
@@ -126,5 +132,11 @@ def replay(ctx, rp):
         for (ln, p) in rj:
             print('REJECT', lines[ln - 1][:300], p)
         return 1 if rj else 0
+    if r['kind'] == 'registry':
+        from checks import regcommon
+        late, _ = regcommon.reasons(ctx, exe, {'registered-lint-without-result'})
+        for (e, why) in late:
+            print('REJECT', why, json.dumps(e))
+        return 1 if late else 0
     print(json.dumps(r))
     return 0
